@@ -579,6 +579,19 @@ Proof.
   - intros r Hr'. apply calc_analytic_row_perm; auto. eapply Permutation_in; [apply Permutation_sym; exact P | exact Hr'].
 Qed.
 
+Lemma d_calc_analytic_perm_err d name f sp operand rows' c :
+  Permutation (d_rows d) rows' -> total_order d sp = true ->
+  d_calc_analytic d name f sp operand = Err c ->
+  exists c', d_calc_analytic (mkD (d_ids d) (d_ms d) rows') name f sp operand = Err c'.
+Proof.
+  intros P T H. unfold d_calc_analytic in H |- *. cbn [d_ids d_ms d_rows].
+  destruct (mem_s name (d_ids d)); [eauto|].
+  apply bind_err in H. destruct H as [H|[x [_ H]]]; [|discriminate].
+  rewrite (mapM_ext_in (calc_analytic_row (mkD (d_ids d) (d_ms d) rows') name f sp operand) (calc_analytic_row d name f sp operand)).
+  - destruct (mapM_perm_err _ _ _ _ P H) as [c' Hc]. exists c'. rewrite Hc. reflexivity.
+  - intros r Hr'. apply calc_analytic_row_perm; auto. eapply Permutation_in; [apply Permutation_sym; exact P | exact Hr'].
+Qed.
+
 (* calc touches only the target component: every other component keeps its value *)
 Lemma calc_put_other ms vals name v n : List.length ms = List.length vals -> n <> name ->
   elook n (combine (fst (calc_put ms vals name v)) (snd (calc_put ms vals name v))) = elook n (combine ms vals).
